@@ -275,6 +275,40 @@ def readSingleSt : Bool → List Char → Option (List Char × List Char)
 /-- Body of a one-line single-quoted scalar (after the opening `'`). -/
 def readSingle (body : List Char) : Option (List Char × List Char) := readSingleSt false body
 
+/-! ## Literal block scalars (§8.1.1, §8.1.2): content lines -/
+
+def leadingSpaces : List Char → Nat
+  | c :: r => if c = ' ' then leadingSpaces r + 1 else 0
+  | [] => 0
+
+/-- A line of spaces only (an `l-empty` line, when not longer than the content indentation). -/
+def isBlankLine (l : List Char) : Bool := l.all (fun c => c = ' ')
+
+/-- [8.1.1.1] auto-detected content indentation: that of the first non-blank line. -/
+def autoIndent : List (List Char) → Option Nat
+  | [] => none
+  | l :: ls => if isBlankLine l then autoIndent ls else some (leadingSpaces l)
+
+/-- One physical line of a block scalar at content indentation `ci`: its content. -/
+def stripContent (ci : Nat) (l : List Char) : Option (List Char) :=
+  if isBlankLine l && l.length ≤ ci then some []
+  else if ci ≤ leadingSpaces l then some (l.drop ci) else none
+
+/-- All lines at content indentation `ci`, or `none` if one of them is indented less. -/
+def stripAll (ci : Nat) : List (List Char) → Option (List (List Char))
+  | [] => some []
+  | l :: ls =>
+    match stripContent ci l, stripAll ci ls with
+    | some c, some cs => some (c :: cs)
+    | _, _ => none
+
+/-- The content lines of a literal block scalar whose parent is indented `n`, with indentation
+indicator `ind` (`none`: auto-detect), from the physical lines after the header. -/
+def readLiteralLines (n : Nat) (ind : Option Nat) (lines : List (List Char)) : Option (List (List Char)) :=
+  match (match ind with | some d => some (n + d) | none => autoIndent lines) with
+  | none => some (lines.map fun _ => [])
+  | some ci => stripAll ci lines
+
 /-- The scalar denoted by the one-line text `t` written in context `ctx`, for a reader that
 resolves plain scalars with `resolve` (`coreResolve`, or the loader's resolver).  `none`: `t` is
 not a single scalar token there (it denotes something else, or nothing). -/
